@@ -27,6 +27,8 @@ def run(ctx):
             r = ctx.rng.fork()
             ents = tie_tree(r)
             with_arc = r.chance(1, 2)
+            if with_arc and r.chance(1, 3):
+                ents = []          # nothing but archives: no later entry can fill a limit
             if with_arc:
                 for i in range(r.range(1, 2)):
                     ents.append({"path": "pack%d.zip" % i, "kind": "z", "members": fstree.gen_zip_members(r, r.choice([2, 5, 8])),
